@@ -60,7 +60,7 @@ CLAIMS = {
    note="Assumed: CalculateQuaiReward / CalculateQiReward are deterministic read-only non-zero functions of (header, difficulty[, rate]) (trusted: LogBig and the multi-algorithm adjustment are outside the subset). Not under contract: prime repricing loops in Slice.Append, ApplyCubicDiscount (big.Float), FindMinDenominations sum, refund on slippage in Process.",
    design="4 (C20)", technique="contract-based deductive verification: functional postconditions over big.Int models plus nonlinear SMT lemmas, z3/cvc5"),
  "C14": dict(
-   text="Decoders hand out objects of their own: Transaction.ProtoDecode returns a fresh payload whose ExternalTx.Value is a fresh number (it is mutated in place later by setValue). Wire pairs: OutPoint.ProtoEncode writes exactly the index and the 32 hash bytes, ProtoDecode reads the index modulo 2^16 and the hash, and an SMT lemma gives decode(encode(x)) = x; TxOut.ProtoDecode carries exactly the wire denomination (rejected above 255, never truncated), the address bytes and the big-endian lock, TxOut.ProtoEncode writes them (a nil lock is written as 0, a negative one as its magnitude); the same for the stored form UtxoEntry.ProtoEncode / ProtoDecode (a nil wire lock decodes to nil). Database keys: UtxoKey's byte layout (prefix | 32 hash bytes | big-endian index, 36 bytes) and ReverseUtxoKey's parse are proved on the real functions and an SMT lemma composes them to ReverseUtxoKey(UtxoKey(h,i)) = (h,i); likewise CoinbaseLockupKey (prefix | owner | miner | lockup byte | big-endian epoch, 47 bytes, through a four-level append chain) and ReverseCoinbaseLockupKey with their round-trip lemma.",
+   text="Decoders hand out objects of their own: Transaction.ProtoDecode returns a fresh payload whose ExternalTx.Value is a fresh number (it is mutated in place later by setValue). Wire pairs: OutPoint.ProtoEncode writes exactly the index and the 32 hash bytes, ProtoDecode reads the index modulo 2^16 and the hash, and an SMT lemma gives decode(encode(x)) = x; TxOut.ProtoDecode carries exactly the wire denomination (rejected above 255, never truncated), the address bytes and the big-endian lock, TxOut.ProtoEncode writes them (a nil lock is written as 0, a negative one as its magnitude); the same for the stored form UtxoEntry.ProtoEncode / ProtoDecode (a nil wire lock decodes to nil) and for the address-index entries OutpointAndDenomination (whose decoder narrows index and denomination without a range check - stated as such). Database keys: UtxoKey's byte layout (prefix | 32 hash bytes | big-endian index, 36 bytes) and ReverseUtxoKey's parse are proved on the real functions and an SMT lemma composes them to ReverseUtxoKey(UtxoKey(h,i)) = (h,i); likewise CoinbaseLockupKey (prefix | owner | miner | lockup byte | big-endian epoch, 47 bytes, through a four-level append chain) and ReverseCoinbaseLockupKey with their round-trip lemma.",
    note="Not under contract: distinctness of the transactions decoded by ReceiptForStorage.ProtoDecode (a quantified loop invariant proved it, but only one solver found the proof in 4-6 s and not on every run, so it is not claimed); field-by-field encode/decode equality for transactions, headers, work objects, receipts; RLP / JSON (reflection) and protobuf marshalling; hash stability. Assumed: binary.BigEndian models, proto getters. The QuaiTx branch of Transaction.ProtoDecode aliases common.Big0 for an empty value - benign today because QuaiTx has no in-place setValue (noted in DESIGN).",
    design="4 (C14)", technique="contract-based deductive verification: freshness postconditions with allocation-counter reasoning, byte-layout postconditions + SMT lemma"),
  "C19": dict(
